@@ -8,7 +8,7 @@ from .. import oracles as orc
 from ..gen import J, JI
 
 PROP = "C05"
-HOSTILE = ('scale', 'mean')
+HOSTILE = ('scale', 'mean', 'special')
 MONITORS = ("WF", "DENS", "CACHE")
 ANCHORS = [("pdf.py", "GaussianPDF.get_marginal"), ("pdf.py", "GaussianDiagPDF.get_marginal"),
            ("pdf.py", "GaussianPDF.get_density_of_linear_sum")]
